@@ -66,6 +66,8 @@ type frame struct {
 	loopMeasure map[*loopInfo]Term
 	headerState map[*loopInfo]State
 	headerReach map[*loopInfo]Term
+	hdrRange    map[*loopInfo][2]int
+	localCells  map[*ssa.Alloc]bool
 	regionOut   map[*ssa.BasicBlock]int
 	entryRegion int
 	rangeOf     map[ssa.Value]ssa.Value
@@ -76,8 +78,8 @@ type frame struct {
 func (vc *VC) newFrame(fn *ssa.Function, con *Contract, depth int) *frame {
 	f := &frame{vc: vc, fn: fn, con: con, depth: depth,
 		vals: map[ssa.Value]Term{}, reachOut: map[*ssa.BasicBlock]Term{}, stOut: map[*ssa.BasicBlock]State{},
-		names: map[string][]nameDef{}, loopMeasure: map[*loopInfo]Term{}, headerState: map[*loopInfo]State{}, headerReach: map[*loopInfo]Term{},
-		rangeOf: map[ssa.Value]ssa.Value{}, selects: map[*ssa.Select]bool{}, regionOut: map[*ssa.BasicBlock]int{}}
+		names: map[string][]nameDef{}, loopMeasure: map[*loopInfo]Term{}, headerState: map[*loopInfo]State{}, headerReach: map[*loopInfo]Term{}, hdrRange: map[*loopInfo][2]int{},
+		rangeOf: map[ssa.Value]ssa.Value{}, selects: map[*ssa.Select]bool{}, regionOut: map[*ssa.BasicBlock]int{}, localCells: map[*ssa.Alloc]bool{}}
 	vc.nfresh++
 	f.prefix = fmt.Sprintf("f%d", vc.nfresh)
 	loops, err := findLoops(fn)
@@ -189,6 +191,9 @@ func (f *frame) resolveLocal(name string, b *ssa.BasicBlock, idx int, st State) 
 		if !ok {
 			return TV{}, false
 		}
+		if strings.HasPrefix(v.S, "@local:") {
+			return TV{T: f.loadLocal(st, v, pt.Elem()), Ty: goTy(pt.Elem())}, true
+		}
 		return TV{T: f.vc.load(st, v, pt.Elem()), Ty: goTy(pt.Elem())}, true
 	}
 	return TV{T: v, Ty: goTy(best.val.Type())}, true
@@ -272,6 +277,9 @@ func (f *frame) constTerm(c *ssa.Const) Term {
 func (f *frame) setVal(v ssa.Value, t Term) {
 	name := v.Name()
 	f.vals[v] = f.vc.define(f.prefix+"_"+name, t)
+	if f.vc.preExisting[t.S] {
+		f.vc.preExisting[f.vals[v].S] = true
+	}
 }
 
 func (f *frame) havocVal(v ssa.Value) Term {
@@ -629,11 +637,13 @@ func (f *frame) enterLoop(li *loopInfo, inPreds []*ssa.BasicBlock, inTerms []Ter
 			continue
 		}
 		cond := f.evalClause(inv, envIn)
+		vc.curGroup = inv.Group
 		f.obligeNoAssume("inv-entry", fmt.Sprintf("loop %d [%d] %s", li.ordinal, k, inv.Text), inv.Props, b.Instrs[0].Pos(), cond)
 	}
 	// 2. havoc phis and modified state; the path that led here is forgotten too (the header's
 	// reachability becomes an unconstrained boolean), so everything needed later must be in the invariant
 	entryReachTerm := f.reach
+	hdrStart := len(vc.lines)
 	// loops that change no state variable (only their own counters) stay transparent: facts about
 	// everything else flow through them; the others are verified modularly
 	if os.Getenv("GOCV_NOFORGET") == "" && (vc.pass == 1 || len(f.loopMods(li)) > 0) {
@@ -669,9 +679,27 @@ func (f *frame) enterLoop(li *loopInfo, inPreds []*ssa.BasicBlock, inTerms []Ter
 		if !f.modeOK(inv.Mode) {
 			continue
 		}
-		vc.assumeHdr(Implies(f.reach, f.evalClause(inv, envH)))
+		vc.assumeHdr(Implies(f.reach, f.evalClause(inv, envH)), inv.Group)
 	}
 	f.headerState[li] = f.cur.clone()
+	// remember where this header's assumptions live and which enclosing headers it depends on
+	if vc.regionStart == hdrStart {
+		var anc [][2]int
+		var parent *loopInfo
+		for _, lo := range f.loops {
+			if lo != li && lo.body[b] && (parent == nil || len(lo.body) < len(parent.body)) {
+				parent = lo
+			}
+		}
+		if parent != nil {
+			if pr, ok := f.hdrRange[parent]; ok {
+				anc = append(anc, vc.regionAncestors[pr[0]]...)
+				anc = append(anc, pr)
+			}
+		}
+		f.hdrRange[li] = [2]int{hdrStart, len(vc.lines)}
+		vc.regionAncestors[hdrStart] = anc
+	}
 	if li.spec.Decreases != nil && f.modeOK(li.spec.Decreases.Mode) {
 		m := f.evalClauseTV(*li.spec.Decreases, envH)
 		m = vc.materialize(m, goTy(types.Typ[types.Int]))
@@ -685,7 +713,8 @@ func (f *frame) modeOK(m string) bool {
 
 func (f *frame) obligeNoAssume(kind, text string, props []string, pos token.Pos, cond Term) {
 	if f.vc.pass == 2 {
-		f.vc.addObligation(kind, text, props, pos, f.reach, cond)
+		ob := f.vc.addObligation(kind, text, props, pos, f.reach, cond)
+		ob.Group = f.vc.curGroup
 	}
 }
 
@@ -728,11 +757,13 @@ func (f *frame) backEdge(li *loopInfo, from *ssa.BasicBlock, succIdx int) {
 			continue
 		}
 		cond := f.evalClause(inv, env)
+		vc.curGroup = inv.Group
 		f.obligeNoAssume("inv-step", fmt.Sprintf("loop %d [%d] %s", li.ordinal, k, inv.Text), inv.Props, from.Instrs[len(from.Instrs)-1].Pos(), cond)
 	}
 	if m0, ok := f.loopMeasure[li]; ok {
 		m := vc.materialize(f.evalClauseTV(*li.spec.Decreases, env), goTy(types.Typ[types.Int]))
 		cond := And(vc.le(vc.idxLit(0), m0, true), vc.lt(m.T, m0, true))
+		vc.curGroup = ""
 		f.obligeNoAssume("decreases", fmt.Sprintf("loop %d %s", li.ordinal, li.spec.Decreases.Text), li.spec.Decreases.Props, token.NoPos, cond)
 	}
 	f.reach = savedReach
